@@ -618,6 +618,29 @@ def check(ctx):
     # way (tenant order, separators) as the id of the request
     from . import c15
     c15.dn_order(ctx, rule='C19.3')
+    # a partition without a record has no capacity: the API stands in a
+    # zero-capacity partition when the admin layer reports "no such object" -
+    # which Admin.get does by letting that error through (a None in its
+    # place reaches the arithmetic and ends the request as a server error)
+    ldap = ctx.index.module('treadmill.admin._ldap')
+    acls = ldap.classes.get('Admin') if ldap else None
+    aget = acls.methods.get('get') if acls else None
+    ctx.require(aget is not None, 'admin._ldap.Admin.get', rule='C19.2')
+    swallow = [h for h in K.walk_no_nested(aget.raw)
+               if isinstance(h, ast.ExceptHandler) and (
+                   h.type is None or 'NoSuchObject' in N.txt(h.type) or
+                   N.txt(h.type).endswith('Exception'))]
+    ctx.ob('C19.2', aget, swallow[0] if swallow else None, not swallow,
+           'Admin.get lets "no such object" escape to its caller',
+           construct='missing object reported')
+    pg = mod.functions.get('_partition_get')
+    if pg is not None:
+        caught = [N.txt(h.type) for h in K.walk_no_nested(pg.raw)
+                  if isinstance(h, ast.ExceptHandler) and h.type is not None]
+        ctx.ob('C19.2', pg, None,
+               any('NoSuchObject' in c for c in caught),
+               'a partition without a record is given zero capacity '
+               '(handles %s)' % caught, construct='missing partition = zero')
 
 
 _A = 'lib/python/treadmill/api/allocation.py'
